@@ -55,6 +55,12 @@ Proof.
   apply IH.
 Qed.
 
+Lemma firstn1_skipn_nth : forall (l : list Z) k, (k < length l)%nat -> firstn 1 (skipn k l) = [nth k l 0%Z].
+Proof.
+  induction l as [|x l IH]; intros [|k] Hk; cbn in *; try lia; try reflexivity.
+  apply IH. lia.
+Qed.
+
 Lemma sat_add_small : forall a b, (a + b <= USIZE_MAX)%N -> sat_add a b = (a + b)%N.
 Proof. intros a b H. unfold sat_add. now apply N.min_l. Qed.
 
@@ -86,17 +92,18 @@ Qed.
 (* ensure: the grow-on-demand discipline is the template's ensure *)
 Lemma ensure_wasm : forall size m,
   (m_pos m + size <= USIZE_MAX)%N ->
-  exists m', ensure WasmD (m_pos m + size) m = Some m' /\ ss_of m' = ss_ensure size (ss_of m) /\ m_trace m' = m_trace m.
+  exists m', ensure WasmD (m_pos m + size) m = Some m' /\ ss_of m' = ss_ensure size (ss_of m) /\
+             m_pos m' = m_pos m /\ (m_pos m + size <= N.of_nat (length (m_words m')))%N.
 Proof.
   intros size m Hb. unfold ensure, ss_ensure, ss_of; cbn [ss_pos ss_raw].
   rewrite sat_add_small by exact Hb.
   destruct (m_pos m + size <=? N.of_nat (length (m_words m)))%N eqn:E.
   - apply N.leb_le in E.
     destruct (N.of_nat (length (m_words m)) <? m_pos m + size)%N eqn:E2; [apply N.ltb_lt in E2; lia|].
-    eexists; repeat split.
+    eexists; repeat split. exact E.
   - apply N.leb_gt in E.
     destruct (N.of_nat (length (m_words m)) <? m_pos m + size)%N eqn:E2; [|apply N.ltb_ge in E2; lia].
-    eexists; repeat split.
+    eexists; repeat split. cbn [m_words]. rewrite app_length, repeat_length. lia.
 Qed.
 
 (* ---------------------------------------------------------------------------------------------- *)
@@ -122,10 +129,7 @@ Proof.
   unfold ss_get_state. rewrite ss_of_tr. cbn [m_pos tr m_words] in Hl.
   rewrite ss_ensure_id; [| exact Hf | exact Hl].
   f_equal. unfold ss_of, rd; cbn [ss_pos ss_raw m_pos m_words tr].
-  assert (Hn : (N.to_nat (m_pos m) < length (m_words m))%nat) by lia.
-  revert Hn. generalize (N.to_nat (m_pos m)) as n. generalize (m_words m) as l.
-  induction l as [|x l IH]; intros [|n] Hn; cbn in *; try lia; try reflexivity.
-  apply IH. lia.
+  apply firstn1_skipn_nth. lia.
 Qed.
 
 Lemma set_agree_vm : forall m v m', fits (OpSet v) m -> set1 VmD v m = Some m' ->
@@ -195,8 +199,7 @@ Proof.
     cbn [ss_pos ss_of].
     rewrite !ss_rd_of.
     unfold TPL_DATA_START, TPL_READ_SLOT, TPL_WRITE_SLOT. rewrite N.add_0_r.
-    f_equal.
-    rewrite !ss_of_wr. reflexivity.
+    reflexivity.
 Qed.
 
 (* one primitive, VM discipline: wherever the VM's access is defined, the template computes the same *)
@@ -248,19 +251,11 @@ Proof.
   - do 2 eexists; split; [reflexivity|]. now rewrite push_agree.
   - destruct (pop_agree_wasm o m) as [m' [E1 E2]]. rewrite E1. do 2 eexists; split; [reflexivity|]. now rewrite E2.
   - unfold get1. set (m0 := tr 0 (m_pos m) 1 m).
-    destruct (ensure_wasm 1 m0 Hf) as [m1 [E1 [E2 _]]]. rewrite E1.
+    destruct (ensure_wasm 1 m0 Hf) as [m1 [E1 [E2 [Hp Hl]]]]. rewrite E1.
     do 2 eexists; split; [reflexivity|].
     unfold ss_get_state. change (ss_of m) with (ss_of m0). rewrite <- E2.
-    cbn [ss_of ss_pos ss_raw]. f_equal. f_equal.
-    + assert (Hp : m_pos m1 = m_pos m0) by (now injection E2).
-      unfold rd. rewrite Hp.
-      assert (Hl : (N.to_nat (m_pos m0) < length (m_words m1))%nat).
-      { unfold ensure in E1. destruct (m_pos m0 + 1 <=? N.of_nat (length (m_words m0)))%N eqn:E.
-        - inversion E1; subst. apply N.leb_le in E. lia.
-        - inversion E1; subst; cbn. apply N.leb_gt in E. rewrite app_length, repeat_length. lia. }
-      revert Hl. generalize (N.to_nat (m_pos m0)) as k. generalize (m_words m1) as l.
-      induction l as [|y l IH]; intros [|k] Hk; cbn in *; try lia; try reflexivity.
-      apply IH. lia.
+    cbn [ss_of ss_pos ss_raw]. unfold rd.
+    rewrite firstn1_skipn_nth by (rewrite Hp; lia). reflexivity.
   - unfold set1. set (m0 := tr 1 (m_pos m) 1 m).
     destruct (ensure_wasm 1 m0 Hf) as [m1 [E1 [E2 _]]]. rewrite E1.
     do 2 eexists; split; [reflexivity|].
@@ -270,7 +265,7 @@ Proof.
     destruct (ensure_wasm 1 m0 Hf) as [m1 [E1 [E2 _]]]. rewrite E1.
     do 2 eexists; split; [reflexivity|].
     unfold ss_mem. change (ss_of m) with (ss_of m0). rewrite <- E2.
-    rewrite ss_of_wr. reflexivity.
+    reflexivity.
   - cbn in Hnz. unfold fits, op_extent in Hf. unfold delay1. set (m0 := tr 2 (m_pos m) (n + 2) m).
     destruct (N.eqb n 0) eqn:En; [apply N.eqb_eq in En; contradiction|].
     assert (Hf' : (m_pos m0 + (2 + n) <= USIZE_MAX)%N) by (cbn [m_pos m0 tr]; lia).
@@ -282,7 +277,7 @@ Proof.
     rewrite clamp_time_clampZ by exact Hnz.
     cbn [ss_pos ss_of]. rewrite !ss_rd_of.
     unfold TPL_DATA_START, TPL_READ_SLOT, TPL_WRITE_SLOT. rewrite N.add_0_r.
-    f_equal. rewrite !ss_of_wr. reflexivity.
+    reflexivity.
 Qed.
 
 (* satisfiability: a run that pushes, reads/writes a feed cell, a mem cell and a 3-sample ring buffer *)
@@ -294,5 +289,5 @@ Lemma ex_run_vm : option_map fst (m_run VmD ex_ops ex_m) = Some [0; 0; 0; 0; 0; 
 Proof. vm_compute. reflexivity. Qed.
 
 Lemma ex_run_tpl : fst (ss_run ex_ops (ss_of ex_m)) = [0; 0; 0; 0; 0; 7; 0; 0; 9]%Z
-                   /\ ss_raw (snd (ss_run ex_ops (ss_of ex_m))) = [9; 5; 2; 2; 7; 8; 0]%Z.
+                   /\ ss_raw (snd (ss_run ex_ops (ss_of ex_m))) = [9; 5; 0; 2; 7; 8; 0]%Z.
 Proof. vm_compute. split; reflexivity. Qed.
